@@ -50,6 +50,9 @@ def known_class_view(ctx, rel, cls, t):
 def cmp_fn(ctx, construct, rel, qual, spec_src, opts=None, holes=None, name=None, **kw):
     """Whole-function comparison with a specification restatement (normalised terms)."""
     where = ctx.where(rel, qual)
+    ctx.notes.setdefault('functions compared whole with a restatement', [])
+    if '%s::%s' % (rel, qual) not in ctx.notes['functions compared whole with a restatement']:
+        ctx.notes['functions compared whole with a restatement'].append('%s::%s' % (rel, qual))
 
     def go():
         exp = ctx.spec_term(spec_src, opts=opts, name=name, **kw)
@@ -259,6 +262,15 @@ def integrity(ctx, rels):
         m = ctx.repo.module(rel)
         bad = []
         for node in m.tree.body:
+            if not isinstance(node, (ast.FunctionDef, ast.ClassDef, ast.Import, ast.ImportFrom)):
+                for x in ast.walk(node):
+                    # setattr(Cls, name, f) / Cls.name = f inside a module-level loop or branch: the class is changed after its body
+                    if isinstance(x, ast.Call) and isinstance(x.func, ast.Name) and x.func.id in ('setattr', 'delattr') and x.args \
+                            and isinstance(x.args[0], ast.Name) and (x.args[0].id in m.classes or x.args[0].id in m.imports):
+                        bad.append('line %d: %s(%s, ..) at module level changes a class after its definition (monkey patching)' % (x.lineno, x.func.id, x.args[0].id))
+                    if isinstance(x, ast.Attribute) and isinstance(x.ctx, (ast.Store, ast.Del)) and isinstance(x.value, ast.Name) \
+                            and x.value.id in m.classes and not isinstance(node, (ast.Assign, ast.AugAssign, ast.Delete)):
+                        bad.append('line %d: module-level assignment to %s.%s (monkey patching)' % (x.lineno, x.value.id, x.attr))
             if isinstance(node, ast.ImportFrom):
                 mod = node.module or ''
                 for a in node.names:
@@ -362,7 +374,7 @@ def integrity(ctx, rels):
 
 # rule sets that decide the building blocks a property rests on (explicit, per property; transitive)
 DEPENDS = {
-    'C01': ['C09', 'C07', 'C08'], 'C02': ['C07', 'C08', 'C16'], 'C03': ['C08', 'C07', 'C16'], 'C04': ['C07', 'C08'],
+    'C01': ['C09', 'C07', 'C08'], 'C02': ['C07', 'C08', 'C16'], 'C03': ['C02', 'C08', 'C07', 'C16'], 'C04': ['C07', 'C08'],
     'C05': ['C09', 'C07', 'C08'], 'C06': ['C16', 'C07', 'C08'], 'C07': ['C08'], 'C08': ['C07'], 'C09': ['C07', 'C08'],
     'C10': [], 'C11': ['C09', 'C16', 'C01'], 'C12': ['C02', 'C07', 'C08'], 'C13': ['C01', 'C11'],
     'C14': ['C09', 'C01', 'C11'], 'C15': ['C07', 'C08'], 'C16': ['C07', 'C08'], 'C17': ['C16', 'C09'],
